@@ -186,6 +186,13 @@ def handshake(src):
             def sendRemoteCommEvent(etype, data):
                 cl.net.send(c.ident, c.ident, etype, data)
                 return True
+    # the handshake may complete at any moment of the life of the local instance: no Master yet, a Master at work, a
+    # Master that is ending Supvisors (the statement makes no exception: a refusing / inconsistent peer is isolated)
+    master_state = src.pick('master_state', [None, 'ELECTION', 'OPERATION', 'RESTARTING', 'SHUTTING_DOWN', 'FINAL'])
+    if master_state:
+        from supvisors.ttypes import SupvisorsStates as F
+        from rig import adapter
+        adapter.plant_peer_state_modes(c, c.ident, master_identifier=c.ident, state=F[master_state])
     status = c.set_instance_state(peer, S.CHECKING)
     holder['status'] = status
     proxy = c.rpc_handler.proxy_server.get_proxy(peer)
@@ -207,7 +214,7 @@ def handshake(src):
     before = status.state.name
     cl.drain()
     after = status.state.name
-    sig = f'{answer_state}:{differ}'
+    sig = f'{answer_state}:{differ}:{master_state}'
     if stale:
         src.reach('stale')
         src.check('stale-handshake-result-changes-nothing', after in (before, 'FAILED'), sig=f'{sig}:{stale}',
